@@ -88,3 +88,17 @@ Theorem C12_tree_holds_the_source_grid : forall bad text d, loads bad text = IOk
   exists sts, d_stages d = [0] :: sts /\ rows_rel bad d 1 sts (filter nonempty_row (rows_of_text text)).
 Proof. exact loads_grid. Qed.
 Print Assumptions C12_tree_holds_the_source_grid.
+
+(* the source grid above is what the two line readers of the CURRENT source cut out of the text / the file: their
+   arguments (delimiter, no quoting, newline='') are regenerated on every run and compared with the modelled ones; with
+   load_equals_loads the same tree, errors included, is built from a file holding the text *)
+From KV Require Import ReaderGen LineReaderProofs.
+Theorem C12_readers_as_modelled :
+  text_lines_expr = "text.splitlines()"%string /\ same_args text_reader_args modelled_reader_args = true /\
+  same_args file_reader_args modelled_reader_args = true /\ assoc_str "newline" file_open_args = Some "''"%string.
+Proof. exact readers_as_modelled. Qed.
+Print Assumptions C12_readers_as_modelled.
+
+Theorem C12_file_import_is_string_import : forall bad s, plain (chars_of_string s) = true -> load_file bad s = loads bad s.
+Proof. exact load_equals_loads. Qed.
+Print Assumptions C12_file_import_is_string_import.
